@@ -101,5 +101,11 @@ extern "C" void vh_c14_create() {
     check_prop(p, type_of(t), v, boost::none, boost::none);
     p.definition("def");
     nixsym_assert(p.definition() && *p.definition() == "def", "definition reads back");
+    // replacing the values by a longer vector than the property was created with (and by more than 8) changes the count accordingly
+    std::vector<Variant> longer;
+    uint32_t grow = nixsym_choice("grow", 2) == 0 ? n + 1 : 9;
+    for (uint32_t i = 0; i < grow; i++) longer.push_back(i < n ? v[i] : v[0]);                 // the tail repeats the first (symbolic) value
+    p.values(longer);
+    check_prop(p, type_of(t), longer, boost::none, boost::none);
     nixsym_reach("done");
 }
